@@ -50,26 +50,72 @@ type DepositField struct {
 // Call the function with the arguments provided.
 func (f *DepositField) Call(s *slip.Scope, args slip.List, depth int) slip.Object {
 	slip.CheckArgCount(s, depth, f, args, 3, 3)
-	newbyte, nneg := ToUnsignedByte(s, args[0], "newbyte", depth)
-	integer, neg := ToUnsignedByte(s, args[2], "integer", depth)
+	newbyte := integerArg(s, args[0], "newbyte", depth)
+	integer := integerArg(s, args[2], "integer", depth)
 	size, pos := byteSpecArg(s, args[1], depth)
 
-	integer = integer.Dup()
-	max := uint(newbyte.Size())
+	// The bits of newbyte in the byte replace the byte in integer.
+	var (
+		field big.Int
+		bi    big.Int
+	)
+	_ = field.Lsh(byteMask(size), uint(pos))
+	_ = bi.AndNot(integer, &field)
+	_ = bi.Or(&bi, field.And(newbyte, &field))
 
-	for i := uint(0); i < uint(size); i++ {
-		off := i + uint(pos)
-		if max <= off {
-			if nneg {
-				integer.SetBit(off, true)
-			} else {
-				integer.SetBit(off, false)
-			}
-		} else {
-			integer.SetBit(off, newbyte.GetBit(off))
-		}
+	return integerResult(&bi, args[2])
+}
+
+// integerArg returns the value of an integer argument as a big.Int that must
+// not be modified. And, Or, AndNot, and Rsh of a big.Int treat a negative value
+// as a sign extended two's complement number of any length which is what the
+// byte functions need.
+func integerArg(s *slip.Scope, arg slip.Object, name string, depth int) (bi *big.Int) {
+	switch ta := arg.(type) {
+	case slip.Fixnum:
+		bi = big.NewInt(int64(ta))
+	case *slip.Bignum:
+		bi = (*big.Int)(ta)
+	case *slip.SignedByte:
+		bi = integerArg(s, ta.AsFixOrBig(), name, depth)
+	case *slip.UnsignedByte:
+		bi = integerArg(s, ta.AsFixOrBig(), name, depth)
+	default:
+		slip.TypePanic(s, depth, name, arg, "integer")
 	}
-	return convertUnsignedByte(integer, args[2], neg)
+	return
+}
+
+// byteMask returns an integer with the low size bits set.
+func byteMask(size int) *big.Int {
+	var mask big.Int
+	_ = mask.Lsh(big.NewInt(1), uint(size))
+
+	return mask.Sub(&mask, big.NewInt(1))
+}
+
+// integerResult returns value as a signed-byte or unsigned-byte if target is
+// one of those and as a fixnum or bignum otherwise.
+func integerResult(value *big.Int, target slip.Object) (result slip.Object) {
+	switch target.(type) {
+	case *slip.SignedByte:
+		// Two's complement with the sign in the high bit of the first byte.
+		var bi big.Int
+		if value.Sign() < 0 {
+			n := bi.Not(value).BitLen()/8 + 1
+			_ = bi.Add(value, bi.Lsh(big.NewInt(1), uint(n*8)))
+			result = &slip.SignedByte{Bytes: bi.Bytes()}
+		} else {
+			result = &slip.SignedByte{Bytes: value.FillBytes(make([]byte, value.BitLen()/8+1))}
+		}
+	case *slip.UnsignedByte:
+		// A byte of an unsigned-byte and an unsigned-byte with a byte
+		// replaced are never negative.
+		result = &slip.UnsignedByte{Bytes: value.FillBytes(make([]byte, value.BitLen()/8+1))}
+	default:
+		result = intReduce(value)
+	}
+	return
 }
 
 // ToUnsignedByte converts the arg to an UnsignedByte or panics.
@@ -106,57 +152,19 @@ func byteSpecArg(s *slip.Scope, arg slip.Object, depth int) (size, pos int) {
 		slip.TypePanic(s, depth, "bytespec", arg, "cons")
 	}
 	var num slip.Fixnum
-	if num, ok = spec[0].(slip.Fixnum); ok {
+	if num, ok = spec[0].(slip.Fixnum); ok && 0 <= num {
 		size = int(num)
 	} else {
-		slip.TypePanic(s, depth, "size", spec[0], "fixnum")
+		slip.TypePanic(s, depth, "size", spec[0], "non-negative fixnum")
 	}
 	var tail slip.Tail
 	if tail, ok = spec[1].(slip.Tail); !ok {
 		slip.TypePanic(s, depth, "bytespec", arg, "cons")
 	}
-	if num, ok = tail.Value.(slip.Fixnum); ok {
+	if num, ok = tail.Value.(slip.Fixnum); ok && 0 <= num {
 		pos = int(num)
 	} else {
-		slip.TypePanic(s, depth, "position", tail.Value, "fixnum")
-	}
-	return
-}
-
-func convertUnsignedByte(integer *slip.UnsignedByte, target slip.Object, neg bool) (result slip.Object) {
-	switch target.(type) {
-	case slip.Fixnum:
-		switch {
-		case integer.IsInt64():
-			result = slip.Fixnum(integer.Int64())
-		case neg:
-			bytes := make([]byte, len(integer.Bytes))
-			copy(bytes, integer.Bytes)
-			result = &slip.SignedByte{Bytes: bytes}
-		default:
-			// Must be positive so make sure the high bit is not set.
-			if (integer.Bytes[0] & 0x80) != 0 {
-				integer.Bytes = append([]byte{0}, integer.Bytes...)
-			}
-			result = integer
-		}
-	case *slip.Bignum:
-		var bi big.Int
-		if neg {
-			sb := slip.SignedByte{Bytes: integer.Bytes}
-			sb.Neg()
-			_ = bi.SetBytes(sb.Bytes)
-			_ = bi.Neg(&bi)
-		} else {
-			_ = bi.SetBytes(integer.Bytes)
-		}
-		result = (*slip.Bignum)(&bi)
-	case *slip.SignedByte:
-		bytes := make([]byte, len(integer.Bytes))
-		copy(bytes, integer.Bytes)
-		result = &slip.SignedByte{Bytes: bytes}
-	case *slip.UnsignedByte:
-		result = integer
+		slip.TypePanic(s, depth, "position", tail.Value, "non-negative fixnum")
 	}
 	return
 }
